@@ -116,6 +116,8 @@ v('c03-f26-reverted', 'C03', 'C03/template-positions-matched-by-index', 'candida
 v('c09-f27-reverted', 'C09', 'C09/one-result-per-node', 'exec-stack-popped-on-failure', ('rogw/tranp/semantics/procedure.py', "		try:\n			return self.__exec_impl(root)\n		finally:\n			# 実行に失敗した場合もスタックを破棄する。残したままにすると、呼び出し元(入れ子の実行元)が失敗した実行の結果を参照してしまう\n			self.__stacks.pop()\n", "		result = self.__exec_impl(root)\n		self.__stacks.pop()\n		return result\n"))
 v('c11-f29-reverted', 'C11', 'C11/full-consumption', 'tokenizer-boundary', ('rogw/tranp/implements/syntax/tranp/syntax.py', "		try:\n			tokens = self.tokenizer.parse(source)\n		except Exception as e:", "		tokens = self.tokenizer.parse(source)\n		try:\n			pass\n		except Exception as e:"))
 v('c17-f30-reverted', 'C17', 'C17/literal-decoding', 'cast-arity', ('rogw/tranp/implements/transpiler/evaluator.py', "		if len(arguments) != 1:\n			raise Errors.OperationNotAllowed(node, calls, arguments)\n\n", ""))
+v('c13-f32-reverted', 'C13', 'C13/quote-escape-independent-of-prefix', 'scan-ends-on-parity', ('rogw/tranp/implements/syntax/tranp/tokenizer.py', "			escapes = 0\n			while index - 1 - escapes >= end and source[index - 1 - escapes] == '\\\\':\n				escapes += 1\n\n			end = index + len(pair['close'])\n			if escapes % 2 == 0:\n				break\n", "			prev = max(end, index - 1)\n			end = index + len(pair['close'])\n			if not (source[prev] == '\\\\'):\n				break\n"))
+v('c07-f33-reverted', 'C07', 'C07/error-render-total', '__arg_to_str', ('rogw/tranp/view/error_render.py', "		try:\n			return f'\"{arg}\"' if isinstance(arg, str) else str(arg)\n		except Exception as e:\n			return f'<{arg.__class__.__name__}: unprintable ({e.__class__.__name__})>'\n", "		return f'\"{arg}\"' if isinstance(arg, str) else str(arg)\n"))
 # ---- C14 / C15 ----
 v('c14-key-renamed', 'C14', 'C14/record-keys-agree', 'Reflection', ('rogw/tranp/semantics/reflection/serializer.py', "				'origin': symbol.types.fullyname,", "				'org': symbol.types.fullyname,"))
 v('c14-via-from-origin', 'C14', 'C14/field-wiring', 'Options.via', ('rogw/tranp/semantics/reflection/serializer.py', "via = db[data['via']] if data['origin'] != data['via'] else None", "via = db[data['origin']] if data['origin'] != data['via'] else None"))
